@@ -770,6 +770,20 @@ def fixed_scenarios(prop):
                     "ignore": [], "compress": False, "versions": V, "mode": "same",
                     "events": [["define", 1], ["wrap", 1, 1], cl(1, 1), ["newprocess"], ["define", 2], ["wrap", 2, 0],
                                ["wrap", 2, 1], cl(2, 0), cl(2, 1), cl(2, 0), cl(2, 1), cl(2, 1, 1)]})
+        # ALIASES of one directory (location 1 = "<dir>/./", location 2 = a symlink to it): Memory.clear() through one
+        # spelling, further calls through another, then a redefinition under the same name
+        out.append({"id": "fixed-aliases-clear-then-redefine", "type": "c12", "locs": 3,
+                    "loc_alias": [[0, "abs"], [0, "dot"], [0, "link"]],
+                    "params": [["x", "pk", None]], "ignore": [], "compress": False,
+                    "versions": {k_: dict(v_, path="mod_%s.py" % k_) for k_, v_ in V.items()}, "mode": "own",
+                    "events": [["define", 1], ["wrap", 1, 0], ["wrap", 1, 1], ["wrap", 1, 2], cl(1, 1), cl(1, 2), cl(1, 2, 1),
+                               ["clearmem", 0], cl(1, 2), cl(1, 2, 2), cl(1, 2, 2),
+                               ["define", 2], ["wrap", 2, 2], ["wrap", 2, 1], cl(2, 2, 2), cl(2, 2), cl(2, 1, 2), cl(2, 1)]})
+        # an edit that keeps the size of the source file, with the modification time restored and linecache warm
+        out.append({"id": "fixed-same-size-edit-mtime-restored", "type": "c12", "keep_mtime": True,
+                    "params": [["x", "pk", None]], "ignore": [], "compress": False, "versions": V, "mode": "same",
+                    "events": [["define", 1], ["wrap", 1], _c(1), _c(1), ["define", 2], ["wrap", 2], _c(2), _c(2),
+                               _c(2, 1), ["define", 1], ["wrap", 1], _c(1), _c(1, 1)]})
         # same-named callables: A, B, A with an equal argument, also across a fresh process
         ev = []
         for k in (1, 2, 3, 4, 5):
@@ -862,7 +876,13 @@ def gen_loc_scenario(rng, sid):
     object is not used again after an object of other text was used there), so every wrong value or needless
     recomputation is a violation.  The interesting interplay is the process-wide _FUNCTION_HASHES: a function
     validated at one location must not be trusted at another (fixed finding F45)."""
-    nloc = rng.choice([2, 2, 3])
+    nslots = rng.choice([1, 2, 2, 3])
+    # ALIASES: further location ids that are other spellings of an existing directory (relative path, trailing
+    # "/.", symlink): other Memory objects, another location STRING, the same store
+    alias = [[L, "abs"] for L in range(nslots)]
+    for _ in range(rng.choice([0, 1, 1, 2]) if nslots > 1 else rng.choice([1, 2])):
+        alias.append([rng.randrange(nslots), rng.choice(["rel", "dot", "link"])])
+    nloc = len(alias)
     ntext = rng.choice([2, 2, 3])
     kind = rng.choice(["def", "def", "nested", "lambda"])
     mode = rng.choice(["same", "own"])
@@ -873,25 +893,27 @@ def gen_loc_scenario(rng, sid):
         versions[str(k)] = {"tag": "v%d" % text, "path": "verifmod.py" if mode == "same" else "mod_v%d.py" % text,
                             "pad": 0, "kind": kind, "text": text}
         return k
-    sc = {"id": sid, "type": "c12", "locs": nloc, "params": [["x", "pk", None]], "ignore": [], "compress": False,
+    sc = {"id": sid, "type": "c12", "locs": nloc, "loc_alias": alias, "keep_mtime": rng.random() < 0.3, "params": [["x", "pk", None]], "ignore": [], "compress": False,
           "versions": versions, "mode": mode}
     events = []
     live, stale = set(), set()
     wrapped = {}                                   # k -> set of locations
-    called = {L: set() for L in range(nloc)}       # objects used at L in this process
-    cur = {L: None for L in range(nloc)}           # text of the last use at L
+    base = [x[0] for x in alias]
+    called = {S: set() for S in range(nslots)}     # (object, location id) pairs used at store S in this process
+    cur = {S: None for S in range(nslots)}         # text of the last use at store S
     lineage = {}
 
     def reset_process():
         live.clear(), stale.clear(), wrapped.clear()
-        for L in range(nloc):
-            called[L], cur[L] = set(), None
+        for S in range(nslots):
+            called[S], cur[S] = set(), None
     guard = 0
     while len([e for e in events if e[0] == "call"]) < rng.randint(5, 14) and guard < 300:
         guard += 1
         r = rng.random()
         usable = [(k, L) for k in sorted(live) if k not in stale for L in sorted(wrapped.get(k, ()))
-                  if unnamed(versions[str(k)]) or k not in called[L] or cur[L] == versions[str(k)]["text"]]
+                  if unnamed(versions[str(k)]) or (k, L) not in called[base[L]]
+                  or cur[base[L]] == versions[str(k)]["text"]]
         if not live or r < 0.16:
             k = new_version(rng.randint(1, ntext))
             events.append(["define", k])
@@ -913,8 +935,8 @@ def gen_loc_scenario(rng, sid):
         elif r < 0.31:
             L = rng.randrange(nloc)
             events.append(["clearmem", L])
-            for L2 in range(nloc):
-                called[L2] = set()
+            for S in range(nslots):
+                called[S] = set()
         elif r < 0.38 and kind != "lambda":
             cand = [k for k in sorted(live) if k not in stale and wrapped.get(k)]
             texts = list(range(1, ntext + 1))
@@ -936,8 +958,8 @@ def gen_loc_scenario(rng, sid):
         elif r < 0.42 and usable:
             k, L = rng.choice(usable)
             events.append(["clearfunc", k, L])
-            called[L].add(k)
-            cur[L] = versions[str(k)]["text"]
+            called[base[L]].add((k, L))
+            cur[base[L]] = versions[str(k)]["text"]
         elif usable:
             k, L = rng.choice(usable)
             cs = {"pos": [I(rng.choice([0, 0, 1]))], "kw": []}
@@ -945,8 +967,8 @@ def gen_loc_scenario(rng, sid):
             if rng.random() < 0.35:
                 events.append(["check", k, cs, vld, L])
             events.append(["call", k, cs, vld, L])
-            called[L].add(k)
-            cur[L] = versions[str(k)]["text"]
+            called[base[L]].add((k, L))
+            cur[base[L]] = versions[str(k)]["text"]
         elif live:
             events.append(["newprocess"])
             reset_process()
@@ -977,7 +999,7 @@ def gen_c12_scenario(rng, sid):
         v = versions[k]
         v["pad"] = pads.setdefault(v["path"], v["pad"])
     sc = {"id": sid, "type": "c12", "params": [["x", "pk", None]], "ignore": [], "compress": False,
-          "versions": versions, "mode": mode}
+          "versions": versions, "mode": mode, "keep_mtime": rng.random() < 0.3}
     events = []
     live, wrapped, lineage = set(), set(), {}
     careful = rng.random() < 0.5     # careful scenarios never use an object the monitor would refuse
@@ -1096,7 +1118,7 @@ def gen_edit_scenario(rng, sid, slots=None, specs=None):
             specs[2 + sl] = {"slots": v}
     versions = {}
     sc = {"id": sid, "type": "c12", "params": [["x", "pk", None]], "ignore": [], "compress": False,
-          "versions": versions, "mode": "same", "picklable": True}
+          "versions": versions, "mode": "same", "picklable": True, "keep_mtime": rng.random() < 0.4}
 
     def new_object(text):
         k = max([int(x) for x in versions] + [0]) + 1
@@ -1183,7 +1205,8 @@ def run_scenario(sc, timeout=300):
                 continue
             job = {"cache": cache, "moddir": moddir, "refs": os.path.join(tmp, "refs.pkl"),
                    "scenario": {k: sc[k] for k in ("versions", "params", "ignore", "compress", "verbose", "mmap_mode",
-                                                   "picklable", "callback", "pids", "backend", "body_ignore")
+                                                   "picklable", "callback", "pids", "backend", "body_ignore", "loc_alias",
+                                                   "keep_mtime")
                                 if k in sc}, "events": seg,
                    "segment": nseg}
             p = subprocess.run([common.PYNP if sc.get("py") == "np" else common.PY,
@@ -1317,10 +1340,10 @@ def judge(sc, res):
             if r.get("bind") is None:
                 continue  # Python rejects the call: outside the properties
             L = ev[4] if len(ev) > 4 else 0
-            ck = (text, "%d|%s" % (L, r["bind_r"]) if sc.get("locs") else r["bind_r"])
+            ck = (text, "%d|%s" % (loc_base(sc, L), r["bind_r"]) if sc.get("locs") else r["bind_r"])
 
             def elsewhere(c):      # an entry of another cache location is not touched by what happens here
-                return bool(sc.get("locs")) and not c[1].startswith("%d|" % L)
+                return bool(sc.get("locs")) and not c[1].startswith("%d|" % loc_base(sc, L))
             if r["o"] == "raise":
                 devs.append({"prop": "C06", "kind": "rejected", "event": i, "key": fa_key([i]),
                              "what": "valid call rejected by the wrapper with %s" % r.get("e")})
@@ -1413,7 +1436,7 @@ def judge(sc, res):
                                          % (j, r["v"], expect)})
         elif t in ("clearfunc", "clearmem", "clearfunc2"):
             if sc.get("locs"):
-                Lc = (ev[2] if len(ev) > 2 else 0) if t == "clearfunc" else (ev[1] if len(ev) > 1 else 0)
+                Lc = loc_base(sc, (ev[2] if len(ev) > 2 else 0) if t == "clearfunc" else (ev[1] if len(ev) > 1 else 0))
                 for c in [c for c in completed if c[1].startswith("%d|" % Lc)]:
                     del completed[c]
             else:
@@ -1436,6 +1459,7 @@ def judge(sc, res):
 # ------------------------------------------------------------------------------- model
 REQ = """From Coq Require Import List Bool Arith.
 Require Import JV.Base.PyPrelude JV.Model.MemoryCore JV.Model.MemoryTab JV.Model.MemoryLoc.
+Local Open Scope nat_scope.
 Import ListNotations."""
 DEFS = """Definition show (o : outcome tvalue) : nat * (nat * nat) :=
   match o with
@@ -1447,10 +1471,77 @@ DEFS = """Definition show (o : outcome tvalue) : nat * (nat * nat) :=
   end."""
 
 
+def loc_base(sc, L):
+    """the model location (one store) behind location id L; several ids may be spellings of one directory"""
+    al = sc.get("loc_alias")
+    return al[L][0] if al else L
+
+
+def model_terms_loc(sc, res):
+    """multi-location scenario -> (cfg, list mevent, tables).  Model object index of (function object k reached
+    through location id L) = k * n + L: each spelling is a tag of its own, [sibs] = the n indices of one function."""
+    evs = res["events"]
+    V = sc["versions"]
+    n = sc["locs"]
+    kmax = max(int(k) for k in V)
+    codes = [0] * ((kmax + 1) * n)
+    paths = [0] * ((kmax + 1) * n)
+    nameds = ["true"] * ((kmax + 1) * n)
+    path_ids = {}
+    for k, v in V.items():
+        for L in range(n):
+            codes[int(k) * n + L] = mtext(sc, v) + 1
+            paths[int(k) * n + L] = path_ids.setdefault(vpath(k, v), len(path_ids))
+            nameds[int(k) * n + L] = "false" if unnamed(v) else "true"
+    keyc, bindc, rbindc = {}, {}, {}
+    mh, expand = [], []
+    for ev, r in zip(sc["events"], evs):
+        t = ev[0]
+        if "harness_error" in r:
+            return None
+        before = len(mh)
+        if t == "define":
+            mh += ["Everywhere (Define %d)" % (ev[1] * n + L) for L in range(n)]
+        elif t == "newprocess":
+            mh.append("Everywhere NewProcess")
+        elif t == "hotreload":
+            mh += ["Everywhere (Define %d)" % (ev[2] * n + L) for L in range(n)]
+            mh += ["At %d (Wrap %d)" % (loc_base(sc, L), ev[2] * n + L) for L in ev[3]]
+        elif t == "recode":
+            mh += ["At %d (Wrap %d)" % (loc_base(sc, L), ev[1] * n + L) for L in ev[2]]
+        elif t == "wrap":
+            L = ev[2] if len(ev) > 2 else 0
+            mh.append("At %d (Wrap %d)" % (loc_base(sc, L), ev[1] * n + L))
+        elif t in ("call", "check"):
+            L = ev[4] if len(ev) > 4 else 0
+            aid = r.get("args_id")
+            key = "None" if aid is None else "(Some %d)" % keyc.setdefault(aid, len(keyc))
+            b = "None" if r.get("bind") is None else "(Some (%d, %d))" % (
+                bindc.setdefault(r["bind"], len(bindc)), rbindc.setdefault(r["expect"], len(rbindc)))
+            mh.append("At %d (%s %d (%s, %s) %s)" % (loc_base(sc, L), "Call" if t == "call" else "Check",
+                                                     ev[1] * n + L, key, b, "true" if ev[3] else "false"))
+        elif t == "clearfunc":
+            L = ev[2] if len(ev) > 2 else 0
+            mh.append("At %d (ClearFunc %d)" % (loc_base(sc, L), ev[1] * n + L))
+        elif t == "clearmem":
+            mh.append("At %d ClearMem" % loc_base(sc, ev[1] if len(ev) > 1 else 0))
+        else:
+            return None
+        expand.append(len(mh) - before)
+    cfg = "(tab_cfg %s %s %s)" % (common.coq_list(map(str, codes)), common.coq_list(map(str, paths)),
+                                   common.coq_list(nameds))
+    sibs = "(fun i : nat => map (fun l : nat => (i / %d) * %d + l) (seq 0 %d))" % (n, n, n)
+    nslots = 1 + max(loc_base(sc, L) for L in range(n))
+    return cfg, "(%s : list (mevent (call:=tcall) (digest:=nat)))" % common.coq_list(mh), \
+        {"rbindc": rbindc, "locs": nslots, "sibs": sibs, "expand": expand}
+
+
 def model_terms(sc, res):
     """Gallina terms (configuration, history) for a scenario, built from what was OBSERVED on the implementation:
     key class = class of the real args_id, binding classes from inspect.signature.bind.
     Returns (cfg, history, decode tables) or None when a harness error makes the scenario unusable."""
+    if sc.get("locs"):
+        return model_terms_loc(sc, res)
     evs = res["events"]
     V = sc["versions"]
     kmax = max(int(k) for k in V)
@@ -1549,9 +1640,11 @@ def impl_view(sc, res, tables):
         if ev[0] in ("call", "shelve", "check") and r.get("bind") is not None:
             src = mtext(sc, V[str(ev[1])]) + 1 if sc["type"] in ("c12", "partial") else 1
             val[r["expect"]] = (src, rbindc[r["expect"]])
-    for ev, r in zip(sc["events"], res["events"]):
+    for nev, (ev, r) in enumerate(zip(sc["events"], res["events"])):
         t = ev[0]
-        if t == "hotreload":
+        if tables.get("expand") and t in ("define", "hotreload", "recode"):
+            out += [(1, 0, 0)] * tables["expand"][nev]
+        elif t == "hotreload":
             out += [(1, 0, 0)] * ((1 + len(ev[3])) if sc.get("locs") else 2)
         elif r.get("o") == "skip":
             out.append((0, 0, 0))
@@ -1589,8 +1682,8 @@ def model_compare(ctx, scs, ress, name):
             continue
         cfg, hist, tables = mt
         if tables.get("locs"):
-            exprs.append("(map show (moutcomes %s %d %s), madmissible %s %d %s)" % (cfg, tables["locs"], hist, cfg,
-                                                                                   tables["locs"], hist))
+            exprs.append("(map show (moutcomes %s %s %d %s), madmissible %s %s %d %s)" % (
+                cfg, tables["sibs"], tables["locs"], hist, cfg, tables["sibs"], tables["locs"], hist))
         else:
             exprs.append("(map show (outcomes %s %s), admissible %s %s)" % (cfg, hist, cfg, hist))
         index.append((n, tables))
